@@ -21,17 +21,23 @@ func newSessionCreated(salt int64) []byte {
 func scenarios(thorough bool) []*sess.Scenario {
 	opt := rpcsrv.Options{Reorder: true, Container: true}
 	obj := func(t int32) sess.Call { return sess.Call{Tag: t, Kind: rpcsrv.KObj} }
+	// rejected requests of every result kind: a re-sent request must keep what its caller declared (a vector
+	// result needs the caller's decoder hint again under the new msg_id)
+	vecInt := func(t int32) sess.Call { return sess.Call{Tag: t, Kind: rpcsrv.KVecInt} }
+	vecObj := func(t int32) sess.Call { return sess.Call{Tag: t, Kind: rpcsrv.KVecObj} }
+	boolean := func(t int32) sess.Call { return sess.Call{Tag: t, Kind: rpcsrv.KBool} }
+	rpcErr := func(t int32) sess.Call { return sess.Call{Tag: t, Kind: rpcsrv.KErr} }
 	sc := []*sess.Scenario{
 		// the happy path of the property record: one rotation, one request, resumed session
-		{Name: "R-n1-k1", Salt: 100, Opt: opt, RotateBefore: map[int]int64{1: 200}, Callers: [][]sess.Call{{obj(1)}}},
+		{Name: "R-n1-k1", Salt: 100, Opt: opt, RotateBefore: map[int]int64{1: 200}, Callers: [][]sess.Call{{vecInt(1)}}},
 		// one request accepted before the rotation, one rejected by it
-		{Name: "R-n2-k1", Salt: 100, Opt: opt, RotateBefore: map[int]int64{2: 200}, Callers: [][]sess.Call{{obj(1)}, {obj(2)}}},
+		{Name: "R-n2-k1", Salt: 100, Opt: opt, RotateBefore: map[int]int64{2: 200}, Callers: [][]sess.Call{{vecObj(1)}, {vecObj(2)}}},
 		// two rotations in one process: the retry of the first rejection is rejected again
-		{Name: "R-n1-k2", Salt: 100, Opt: opt, RotateBefore: map[int]int64{1: 200, 2: 300}, Callers: [][]sess.Call{{obj(1)}}},
+		{Name: "R-n1-k2", Salt: 100, Opt: opt, RotateBefore: map[int]int64{1: 200, 2: 300}, Callers: [][]sess.Call{{vecObj(1)}}},
 		// two rotations separated by successful traffic, then a probe
-		{Name: "R-n1-k2-probe", Salt: 100, Opt: opt, RotateBefore: map[int]int64{1: 200, 4: 300}, Callers: [][]sess.Call{{obj(1), obj(2), obj(3)}}},
+		{Name: "R-n1-k2-probe", Salt: 100, Opt: opt, RotateBefore: map[int]int64{1: 200, 4: 300}, Callers: [][]sess.Call{{boolean(1), rpcErr(2), vecInt(3)}}},
 		// rotation at an explorer-chosen moment (server event) with two callers in flight
-		{Name: "R-n2-free-rotation", Salt: 100, Opt: opt, Script: []rpcsrv.Event{{Kind: rpcsrv.EvRotate, Salt: 200, Label: "rotate"}}, Callers: [][]sess.Call{{obj(1), obj(3)}, {obj(2)}}},
+		{Name: "R-n2-free-rotation", Salt: 100, Opt: opt, Script: []rpcsrv.Event{{Kind: rpcsrv.EvRotate, Salt: 200, Label: "rotate"}}, Callers: [][]sess.Call{{vecInt(1), obj(3)}, {boolean(2)}}},
 		// the stored salt is already stale when the client resumes (rotation while away), then a second one
 		{Name: "R-stale-store-k2", Salt: 100, StoredSalt: i64(50), Opt: opt, RotateBefore: map[int]int64{3: 300}, Callers: [][]sess.Call{{obj(1), obj(2)}}},
 		// new_session_created announces a new salt
@@ -54,9 +60,9 @@ func scenarios(thorough bool) []*sess.Scenario {
 		return f
 	}
 	sc = append(sc,
-		fresh("F-n1-k1", map[int]int64{1: 200}, [][]sess.Call{{obj(1)}}),
+		fresh("F-n1-k1", map[int]int64{1: 200}, [][]sess.Call{{vecInt(1)}}),
 		fresh("F-n0-k1-probe", map[int]int64{2: 200}, [][]sess.Call{{obj(1), obj(2)}}),
-		fresh("F-n2-k1", map[int]int64{2: 200}, [][]sess.Call{{obj(1)}, {obj(2)}}),
+		fresh("F-n2-k1", map[int]int64{2: 200}, [][]sess.Call{{vecObj(1)}, {rpcErr(2)}}),
 	)
 	if thorough {
 		sc = append(sc,
